@@ -3,9 +3,9 @@ package main
 import (
 	"fmt"
 
-	"github.com/tuneinsight/lattigo/v6/circuits/common/lintrans"
 	bgvlt "github.com/tuneinsight/lattigo/v6/circuits/bgv/lintrans"
 	ckkslt "github.com/tuneinsight/lattigo/v6/circuits/ckks/lintrans"
+	"github.com/tuneinsight/lattigo/v6/circuits/common/lintrans"
 
 	"verif/engine"
 	"verif/lib/circ"
